@@ -148,7 +148,7 @@ PROPERTIES = {
     "C11": {
         "level": "proof",
         "must_fail_quick": False,     # the vacuity twins of these units run under the property that owns each unit (and in C11 thorough)
-        "verus_units": ["arith_widen", "arith128", "widediv", "nofrac", "fracops", "round@*", "transc", "log2inner", "sqrtacc", "powiacc", "leaves", "decbin", "decbin128", "parsetop", "digitsint", "tokeniser", "decfrac", "powfrac", "cmp@*", "fromfixed@*", "fromfloat@*", "wrapping", "traitfwd@*", "intconv", "floatglue", "trig", "cmpfloat@*", "cmpfloatrev@*", "cmpint@*", "cmpintrev@*", "bitops@*", "remint@*", "diveuclid@*"],
+        "verus_units": ["arith_widen", "arith128", "widediv", "nofrac", "fracops", "round@*", "transc", "log2inner", "sqrtacc", "powiacc", "leaves", "decbin", "decbin128", "parsetop", "digitsint", "tokeniser", "decfrac", "powfrac", "fmttop", "cmp@*", "fromfixed@*", "fromfloat@*", "wrapping", "traitfwd@*", "intconv", "floatglue", "trig", "cmpfloat@*", "cmpfloatrev@*", "cmpint@*", "cmpintrev@*", "bitops@*", "remint@*", "diveuclid@*"],
         "kani": [{"harness": h, "classes": ["panic"]} for h in
                  _mods("arith8", ["i4f4", "i0f8", "u4f4", "u0f8"], FORMS) + ["arith8::abs_forms_i8"] + TFH
                  + ["float::check_to_f32", "float::check_to_f64", "float::check_kind_f32", "float::check_kind_f64"]
@@ -201,7 +201,7 @@ PROPERTIES = {
     },
     "C09": {
         "level": "other",
-        "verus_units": ["leaves"],
+        "verus_units": ["leaves", "fmttop"],
         "kani": ["display::display_default", "display::display_precision", "display::display_plus", "display::display_lower_hex", "display::display_binary", "display::display_width_precision", "display::display_lower_hex_u16"],
         "kani_thorough": ["display::display_sign", "display::display_zero_pad", "display::display_width", "display::display_width_precision_left", "display::display_width_precision_zero", "display::display_upper_hex",
                           "display::display_octal", "display::display_alt_hex", "display::display_octal_u16", {"harness": "display::display_default_u16", "timeout": 3000}, "display::display_lower_hex_u32"],
@@ -210,9 +210,18 @@ PROPERTIES = {
                        "exactly rounded expansion; sign / + / zero padding / width only add prefix and padding; "
                        "radix 2, 8, 16 outputs are exact; and on every 16-bit value and all 17 layouts (the per-width code of impl_radix_helper! that the 8-bit "
                        "instance never runs: u16 delegates to the u8 helper when fewer than 8 bits are in use): `{:x}` exact (quick), `{:o}` exact and `{}` "
-                       "well formed and within half an ulp, i.e. round-trip safe (thorough); `{:x}` of every 32-bit value x all 33 layouts (thorough).  Verus: the width-specific leaves Mul10 x5 and ceil_log10_2_times for all inputs",
+                       "well formed and within half an ulp, i.e. round-trip safe (thorough); `{:x}` of every 32-bit value x all 33 layouts (thorough).  Verus, all widths, all values, every precision: the width-specific leaves Mul10 x5 and ceil_log10_2_times, "
+                       "and (unit fmttop) the generic top of the formatter fmt_dec<U> / fmt_radix2<U> with Buffer::new, Buffer::set_len, Radix::digit_bits: every shift amount is in range, "
+                       "no digit count overflows, and the buffer-length assertion of set_len cannot fire nor its index leave the 130-byte buffer, because the integer part "
+                       "uses at most W - f bits (leading_zeros >= f) and the fraction at most f bits (trailing_zeros >= W - f), so int_digits + frac_digits <= W <= 128 "
+                       "for any requested precision - the part of 'no value or flag combination panics' that depends on the width",
         "bounded_parts": ["8-bit layouts (all formats and flags) and 16-bit layouts (`{:x}`, `{:o}`, `{}`) only; precision <= 9; width <= 12; one flag at a time; "
-                          "core::str::from_utf8 stubbed by its unchecked variant; the formatter of the 32..128-bit types is covered by the leaf proofs only"],
+                          "core::str::from_utf8 stubbed by its unchecked variant; for the 32..128-bit types only the leaves and the top of the formatter (unit fmttop) are under contract: "
+                          "the digit writers write_int* / write_frac*, round_and_trim, encode_digits, pad_and_print (`iter_mut` over sub-slices, core::fmt) are declared without contract in unit fmttop, "
+                          "i.e. assumed total there"],
+        "assumptions": ["unit fmttop: trait-level contracts of the generic unsigned FmtHelper - `<<` / `>>` of the primitive types, leading_zeros (a value below 2^k has at least W - k), "
+                        "trailing_zeros (zero has W; a multiple of 2^k has at least k) - are statements about core's primitive integer methods, assumed; core::cmp::min and "
+                        "Formatter::precision (any Option<usize>) are assume_specification; ceil_log10_2_times is declared with the contract proved in unit leaves"],
     },
     "C12": {
         "level": "proof",
